@@ -470,6 +470,7 @@ impl Server {
             "bcx" => cmd_bcx(&t),
             "ft" => cmd_ft(&t),
             "ramx" => cmd_ramx(&t),
+            "bwx" => cmd_bwx(&t),
             "diskx" => self.cmd_diskx(&t),
             "sched" => self.cmd_sched(&t),
             "schedr" => self.cmd_schedr(&t),
@@ -1428,6 +1429,31 @@ fn cmd_bcx(t: &[&str]) -> Option<String> {
         out
     });
     Some(r.unwrap_or_else(|p| format!("panic {p}")))
+}
+
+/// `bwx op op …` — drives a fresh `hypercore::BitfieldProbe` (the crate-private `FixedBitfield` / `DynamicBitfield`, reachable
+/// through the `verif-hooks` feature of /repo) by the operations `name:arg:arg` (see src/bitfield/verif_probe.rs) and answers
+/// `ok obs | obs | …`; a panic of the probed code ends the script with the observation `panic`.
+fn cmd_bwx(t: &[&str]) -> Option<String> {
+    let mut probe = hypercore::BitfieldProbe::new();
+    let mut out = String::from("ok");
+    for (k, o) in t[1..].iter().enumerate() {
+        let cmd = o.replace(':', " ");
+        if k > 0 {
+            out.push_str(" |");
+        }
+        match guarded(|| probe.step(&cmd)) {
+            Ok(s) => {
+                out.push(' ');
+                out.push_str(s.trim());
+            }
+            Err(_) => {
+                out.push_str(" panic");
+                break;
+            }
+        }
+    }
+    Some(out)
 }
 
 /// `ramx PAGE_SIZE op op …` — runs the operations on a fresh `RandomAccessMemory::new(PAGE_SIZE)` (the dependency
